@@ -189,6 +189,153 @@ func runC10(c *Ctx, r *Report) {
 	optionForwarding(c, r, "R-C10.7", append(loaderFetchSpecs(), constructorLoaderSpecs()...), "Length", "Exclude", "ShouldExclude")
 	r.Doc("R-C10.8", "the outcome does not depend on the fetch concurrency: no configuration of slots and queued hashes stalls the dispatcher (slot release before the mutex, worker accounting on every path)")
 	importRules(c, r, "C11", []string{"R-C11.1", "R-C11.6"}, "R-C10.8")
+	r.Doc("R-C10.12", "a fetched entry is never refused on a clock tie: wherever the admission of a fetched entry compares its clock time with a bound the fetcher tracks, equality admits (the log's order breaks equal times by writer id, so a tied entry can still belong to the kept tail; refusing it makes the outcome depend on block arrival order)")
+	{
+		fetcherT := p.Named("entry", "Fetcher")
+		ninst := 0
+		for _, fn := range p.Fns {
+			if fn.Orig != nil || !inPkgs(p, fn, "entry") {
+				continue
+			}
+			root := fn.Root()
+			if root.Obj == nil {
+				continue
+			}
+			if rv := root.Obj.Type().(*types.Signature).Recv(); rv == nil || namedOf(rv.Type()) != fetcherT {
+				continue
+			}
+			// single-definition locals of this function (and of the enclosing ones, for literals)
+			defOf := func(o types.Object) ast.Expr {
+				var def ast.Expr
+				n := 0
+				ast.Inspect(root.Body, func(m ast.Node) bool {
+					if as, ok := m.(*ast.AssignStmt); ok && len(as.Lhs) == len(as.Rhs) {
+						for k, l := range as.Lhs {
+							if id, ok := l.(*ast.Ident); ok && p.ObjOf(fn, id) == o {
+								def = as.Rhs[k]
+								n++
+							}
+						}
+					}
+					return true
+				})
+				if n == 1 {
+					return def
+				}
+				return nil
+			}
+			var expand func(e ast.Expr, depth int) ast.Expr
+			expand = func(e ast.Expr, depth int) ast.Expr {
+				e = ast.Unparen(e)
+				if id, ok := e.(*ast.Ident); ok && depth < 4 {
+					if o := p.ObjOf(fn, id); o != nil {
+						if _, isVar := o.(*types.Var); isVar {
+							if d := defOf(o); d != nil {
+								return expand(d, depth+1)
+							}
+						}
+					}
+				}
+				return e
+			}
+			var atomsOf func(cond ast.Expr, taken bool, depth int) [][]condAtom
+			atomsOf = func(cond ast.Expr, taken bool, depth int) [][]condAtom {
+				var out [][]condAtom
+				for _, alt := range dnfCond(cond, taken) {
+					alts := [][]condAtom{{}}
+					for _, a := range alt {
+						x := expand(a.E, 0)
+						var sub [][]condAtom
+						if x != ast.Unparen(a.E) && depth < 3 {
+							sub = atomsOf(x, a.Truth, depth+1)
+						} else {
+							sub = [][]condAtom{{a}}
+						}
+						var nx [][]condAtom
+						for _, pre := range alts {
+							for _, sfx := range sub {
+								nx = append(nx, append(append([]condAtom{}, pre...), sfx...))
+							}
+						}
+						alts = nx
+					}
+					out = append(out, alts...)
+				}
+				return out
+			}
+			isClockTime := func(e ast.Expr) bool {
+				found := false
+				ast.Inspect(expand(e, 0), func(m ast.Node) bool {
+					if call, ok := m.(*ast.CallExpr); ok {
+						if cal := p.Callee(fn, call); cal != nil && cal.Name() == "GetTime" {
+							found = true
+						}
+					}
+					return !found
+				})
+				return found
+			}
+			isFetcherField := func(e ast.Expr) bool {
+				sel, ok := ast.Unparen(e).(*ast.SelectorExpr)
+				if !ok {
+					return false
+				}
+				v, ok := p.ObjOf(fn, sel.Sel).(*types.Var)
+				return ok && v.IsField() && namedOf(p.TypeOf(fn, sel.X)) == fetcherT
+			}
+			walkNoLit(fn.Body, func(n ast.Node) bool {
+				as, ok := n.(*ast.AssignStmt)
+				if !ok || len(as.Rhs) != 1 {
+					return true
+				}
+				call, ok := ast.Unparen(as.Rhs[0]).(*ast.CallExpr)
+				if !ok || p.Builtin(fn, call) != "append" || len(call.Args) < 2 {
+					return true
+				}
+				if et := p.TypeOf(fn, call.Args[1]); et == nil || !isNamed(et, p.pkgPath("iface"), "IPFSLogEntry") {
+					return true
+				}
+				// the conditions this append sits under
+				for cur, par := ast.Node(as), p.ParentIn(fn, as); par != nil; cur, par = par, p.ParentIn(fn, par) {
+					if par == ast.Node(fn.Body) {
+						break
+					}
+					ifs, ok := par.(*ast.IfStmt)
+					if !ok || (cur != ast.Node(ifs.Body) && cur != ifs.Else) {
+						continue
+					}
+					for _, alt := range atomsOf(ifs.Cond, cur == ast.Node(ifs.Body), 0) {
+						for _, a := range alt {
+							be, ok := ast.Unparen(a.E).(*ast.BinaryExpr)
+							if !ok {
+								continue
+							}
+							timeLeft := isClockTime(be.X) && isFetcherField(be.Y)
+							timeRight := isClockTime(be.Y) && isFetcherField(be.X)
+							if !timeLeft && !timeRight {
+								continue
+							}
+							ninst++
+							admitsTie := false
+							switch be.Op {
+							case token.GEQ, token.LEQ, token.EQL:
+								admitsTie = a.Truth
+							case token.GTR, token.LSS, token.NEQ:
+								admitsTie = !a.Truth
+							}
+							r.Check(admitsTie, "R-C10.12", r.Key("R-C10.12", fn, "clock-tie", types.ExprString(be.X)+"~"+types.ExprString(be.Y)), be.Pos(),
+								"an entry whose clock time equals the tracked bound is admitted",
+								"the admission of a fetched entry requires its clock time to differ from the tracked bound ("+types.ExprString(be)+"): an entry that ties with the oldest kept one is refused although the log's order may place it in the kept tail, so which of two concurrent entries is kept depends on the order their blocks arrive")
+						}
+					}
+				}
+				return true
+			})
+		}
+		if ninst == 0 {
+			r.Hold("R-C10.12", r.Key("R-C10.12", nil, "no-clock-refusal", ""), token.NoPos, true, "no admission of a fetched entry compares its clock time with a tracked bound (nothing is refused by clock)")
+		}
+	}
 	r.Doc("R-C10.11", "the loops that trim, put back and select entries process every element")
 	loopsComplete(c, r, "R-C10.11", func(fn *Fn) bool {
 		return rootNamed(fn, "fromMultihash", "fromEntryHash", "fromJSON", "fromEntry", "lastEntries", "entrySlice", "dropOldestOthers", "Difference")
